@@ -13,12 +13,16 @@ TARGETS_CHECK = ["theories/Check/C03o.vo", "theories/Check/C03.vo"]
 TARGETS_PROP = ["theories/Properties/C03.vo"]
 SHARD = 300
 PRELUDE = "Open Scope string_scope.\n"
-RULE = ("8 fixed corner shapes + 44 (quick) / 600 (thorough) random struct shapes generated as Go source from VERIF_SEED "
+RULE = ("8 fixed corner shapes + 44 (quick) / 600 (thorough) random struct shapes "
+        "+ 4 fixed and 4 (quick) / 54 (thorough) random HOMONYM shapes (declared inside a function behind local types that shadow the "
+        "package-level named types: distinct types of equal reflect String(), Name() and PkgPath(), both as field types of one "
+        "struct in either order and across embedding depth, or one of them only), generated as Go source from VERIF_SEED "
         "(1-9 fields per struct, field types of size 0..32 and alignment 1/2/4/8 incl. named variants, value embedding to depth 4, "
         "pointer-embedded structs, embedded non-struct types, unexported names, hseq tags incl. empty/multi-part/escaped, duplicate "
         "names, keys and types across depths); per shape: hseq.New[T]() and New[*T]() listings, ForName and ForNameMaybe on every key, "
         "raw name, whole tag and misses, New[T](names...) on random name tuples incl. duplicates and misses, ForType on every field "
-        "type and absent types, NewN on random type tuples (N=1..9), FMap, FMap1..9 with index-tagging functions on the whole "
+        "type, absent types and the absent namesake of a present type, NewN on random type tuples (N=1..9) incl. both namesakes in "
+        "either order and tuples with one absent namesake, FMap, FMap1..9 with index-tagging functions on the whole "
         "listing / exactly N / N-1 names; a case is distinct by (shape layout, request) and non-trivial when the answer is not a panic")
 TRUSTED = [
     "tools/go2coq mode hseq (go/parser AST of New1..9 / FMap1..9 -> shallow Gallina in the poison monad of Optics/Res.v)",
